@@ -499,6 +499,16 @@ class C06(RunSpec):
         p["levels"] = [2, 2, 3, 1]
         p["gscs"] = ["melimit", "melimit", "evals", "allstopped", "rootstopped"]
         p["hibernation_p"] = 0.3
+        if idx % 10 == 1:
+            # three levels with hibernation: sleeping demes sit in the middle of the run order
+            p.update({"n_levels": 3, "hibernation": True, "sprout": _cycle(["simple", "nbc", "custom"], idx // 10), "gscs": ["melimit"],
+                      "lscs": ["dontstop", "dontstop", "melimit"], "inner": _cycle(["sea", "de", "shade", "cma"], idx // 10),
+                      "root": _cycle(["sea", "de", "lhs", "shade", "sobol"], idx // 10), "level_limit": 3 + (idx // 10) % 2,
+                      "fams": ["rastrigin", "funnel", "rastrigin"], "boxes": ["sym", "asym"], "max_pop": 16})
+        if idx % 10 == 4:
+            # local searches sprouted from mid-level demes that have just finished (local-method generator), one problem object per level
+            p.update({"n_levels": 3, "leaf": "local", "shared": False, "sprout": "custom", "gscs": ["melimit"], "lscs": ["melimit"],
+                      "inner": _cycle(["cma", "sea", "de"], idx // 10), "stacks": False, "nbclocal": True, "hibernation": False})
         if idx % 8 == 7:
             # (reuse pair, see reuse_every) stateless-looking stop conditions must stay stateless across trees
             p["lscs"] = ["steady", "steady", "melimit", "children"]
@@ -515,6 +525,19 @@ class C06(RunSpec):
     def make_case(self, seed, idx, tier):
         d = super().make_case(seed, idx, tier)
         rng = gen.case_rng(self.prop, seed, idx, "post")
+        if idx % 10 == 1 and d["gsc"]["k"] == "melimit":
+            d["gsc"]["n"] = 12
+            rmin = min(b[1] - b[0] for b in d["box"]["bounds"])
+            if d["sprout"]["k"] == "simple":
+                d["sprout"]["far"] = rmin * rng.choice([0.03, 0.08])
+            if "pop" in d["levels"][0]:
+                d["levels"][0]["pop"] = max(d["levels"][0]["pop"], 12)
+        if idx % 10 == 4 and len(d["levels"]) == 3 and d["levels"][-1]["engine"] == "local":
+            d["sprout"] = {"k": "custom", "gen": {"k": "nbclocal", "df": 2.0, "trunc": 1.0}, "dfilters": [{"k": "demelimit", "n": 2}],
+                           "tfilters": [{"k": "levellimit", "n": 4}], "ll": 4}
+            d["levels"][0]["lsc"] = {"k": "dontstop"}
+            d["levels"][1]["lsc"] = {"k": "melimit", "n": rng.randint(1, 3)}
+            d["gsc"] = {"k": "melimit", "n": 9}
         if d.get("reuse") and d["gsc"]["k"] == "melimit":
             d["gsc"]["n"] = max(d["gsc"]["n"], 7)
             for lv in d["levels"]:
@@ -533,6 +556,9 @@ class C06(RunSpec):
             ("C06.cause.engine", 1, "engine self-termination"),
             ("C06.deactivation.CMADeme.engine", 1, "CMA-ES internal stop"),
             ("C06.stopped_deme_observed_3_later_metaepochs", 1, "stopped deme observed over >=3 later metaepochs"),
+            ("C06.hibernating_deme_ahead_of_an_awake_one_in_run_order", 3, "a sleeping deme ahead of an awake one in the run order"),
+            ("C06.local_deme_sprouted_from_a_stopped_parent", 2, "local deme sprouted from a stopped mid-level deme"),
+            ("C06.lsc_verdicts_compared_with_documented_rule", 50, "LSC verdicts compared with the documented rule"),
         ]
 
 
